@@ -36,6 +36,7 @@ def run(rep, tier):
     analytic_psfs(rep, r, 3 * scale)
     imagepsf_samples(rep, r, 25 * scale, lines, exps, metas)
     gridded(rep, r, 40 * scale, lines, exps, metas)
+    prfadapter_probe(rep, r, 2 * scale)
     out = drv.run(lines)
     if out is None:
         rep.tie_broken('model driver failed', drv.error)
@@ -239,19 +240,53 @@ def imagepsf_samples(rep, r, n, lines, exps, metas):
         metas.append('imagepsf-coord')
 
 
+def prfadapter_probe(rep, r, n):
+    """PRFAdapter (deprecated, still public) around a non-symmetric model: pixel-integrated values sum to flux, are centred on (x_0, y_0) and
+    keep the wrapped model's orientation, whichever of xname / yname / fluxname are delegated to the wrapped model (defect F62)"""
+    from astropy.modeling.models import Gaussian2D
+    from photutils.psf import PRFAdapter
+    yy, xx = np.mgrid[-7:8, -7:8].astype(float)
+    combos = [dict(), dict(xname='x_mean', yname='y_mean'), dict(xname='x_mean', yname='y_mean', fluxname='amplitude'), dict(fluxname='amplitude'),
+              dict(xname='x_mean'), dict(yname='y_mean')]
+    for k in range(n):
+        kw = combos[(k + r.randrange(6)) % 6] if k else combos[2]
+        sx, sy = r.choice([(1.6, 1.0), (1.0, 1.5)])
+        flux, x0, y0 = r.choice([1.0, 3.0]), r.randint(-4, 4) / 4, r.randint(-4, 4) / 4
+        rp = {'names': kw, 'x_stddev': sx, 'y_stddev': sy, 'flux': flux, 'x_0': x0, 'y_0': y0}
+        try:
+            with warnings.catch_warnings():
+                warnings.simplefilter('ignore')
+                m = PRFAdapter(Gaussian2D(1.0, 0, 0, sx, sy), **kw)
+                m.flux, m.x_0, m.y_0 = flux, x0, y0
+                v = np.asarray(m(xx, yy), float)
+        except Exception as e:                                  # noqa: BLE001
+            rep.violation(f'prfadapter-raises:{type(e).__name__}', f'PRFAdapter({kw}) raised {e!r}', rp)
+            continue
+        rep.case(('prfadapter', tuple(sorted(kw.items())), sx, sy, flux, x0, y0), True, kind='PRFAdapter:' + ('+'.join(sorted(kw)) or 'no-names'))
+        rep.probe_only += 1
+        tot = float(v.sum())
+        cx, cy = float((v * xx).sum() / tot), float((v * yy).sum() / tot)
+        wx, wy = float((v * (xx - cx) ** 2).sum() / tot), float((v * (yy - cy) ** 2).sum() / tot)
+        if not (abs(tot - flux) < 2e-3 * flux and abs(cx - x0) < 2e-3 and abs(cy - y0) < 2e-3 and (wx > wy) == (sx > sy)):
+            rep.violation('prfadapter-not-the-wrapped-model', f'PRFAdapter({kw}) around Gaussian2D(x_stddev={sx}, y_stddev={sy}), flux {flux} at ({x0}, {y0}): '
+                          f'sum {tot:.5f}, centroid ({cx:.4f}, {cy:.4f}), second moments x {wx:.3f} / y {wy:.3f}', rp)
+
+
 def make_grid(r):
     from astropy.nddata import NDData
     from photutils.psf import GriddedPSFModel
     layout = r.choice(['3x3', '2x2', '1x3', '3x1', '1x1', '2x3'])
     gx = {'3x3': [0, 16, 40], '2x2': [4, 36], '1x3': [0, 20, 44], '3x1': [8], '1x1': [12], '2x3': [0, 24, 48]}[layout]
     gy = {'3x3': [0, 24, 32], '2x2': [0, 28], '1x3': [10], '3x1': [0, 16, 40], '1x1': [6], '2x3': [2, 30]}[layout]
-    yy, xx = np.mgrid[0:9, 0:9]
+    # ePSF arrays with odd and even pixel counts (the model is centred on the array centre ((nx-1)/2, (ny-1)/2) either way)
+    eny, enx = r.choice([(9, 9), (9, 9), (8, 8), (8, 9), (9, 10)])
+    yy, xx = np.mgrid[0:eny, 0:enx]
     psfs, pos = [], []
     sig0 = r.choice([1.1, 1.25, 1.4, 0.95])          # models on the same grid layout hold different ePSFs (nothing may be shared between objects)
     for iy, y in enumerate(gy):
         for ix, x in enumerate(gx):
             sig = sig0 + 0.2 * ix + 0.35 * iy
-            d = np.exp(-((xx - 4) ** 2 + (yy - 4) ** 2) / (2 * sig ** 2))
+            d = np.exp(-((xx - (enx - 1) / 2) ** 2 + (yy - (eny - 1) / 2) ** 2) / (2 * sig ** 2))
             psfs.append(d / d.sum())
             pos.append((x, y))
     nd = NDData(np.array(psfs), meta={'grid_xypos': pos, 'oversampling': 1})
@@ -269,7 +304,8 @@ def gridded(rep, r, n, lines, exps, metas):
             y0 = r.randint(4 * min(gy), 4 * max(gy)) / 4 if len(gy) > 1 else gy[0] + r.choice([-2.0, 0.0, 7.25])
         else:
             x0, y0 = r.choice([min(gx) - 6.5, max(gx) + 9.0, float(gx[0])]), r.choice([min(gy) - 3.0, max(gy) + 12.5, float(gy[-1])])
-        replay = {'layout': layout, 'grid_x': gx, 'grid_y': gy, 'x_0': x0, 'y_0': y0}
+        eny, enx = psfs.shape[1:]
+        replay = {'layout': layout, 'grid_x': gx, 'grid_y': gy, 'x_0': x0, 'y_0': y0, 'epsf_shape': [int(eny), int(enx)]}
         try:
             with warnings.catch_warnings():
                 warnings.simplefilter('ignore')
@@ -297,15 +333,15 @@ def gridded(rep, r, n, lines, exps, metas):
         # (S) value = bilinear blend of the four bounding ePSFs evaluated at the same offsets (each via a 1-node reference)
         ref = np.zeros_like(v)
         from scipy.interpolate import RectBivariateSpline
-        xi = (x - x0) + m.origin[0]
-        yi = (y - y0) + m.origin[1]
+        xi = (x - x0) + (enx - 1) / 2                                # (not m.origin: the centre of the stored arrays is part of the property)
+        yi = (y - y0) + (eny - 1) / 2
         for gi, wi in zip(gidx, w):
             if wi == 0:
                 continue
-            sp = RectBivariateSpline(np.arange(9), np.arange(9), psfs[gi].T, kx=3, ky=3, s=0)
+            sp = RectBivariateSpline(np.arange(enx), np.arange(eny), psfs[gi].T, kx=3, ky=3, s=0)
             ref += wi * sp(xi, yi, grid=False)
         ref *= 2.0
-        inval = (xi < 0) | (xi > 8) | (yi < 0) | (yi > 8)
+        inval = (xi < 0) | (xi > enx - 1) | (yi < 0) | (yi > eny - 1)
         ref[inval] = 0.0
         if not np.allclose(v, ref, rtol=1e-10, atol=1e-14):
             rep.violation('gridded-not-bilinear-blend', 'GriddedPSFModel value is not the weighted blend of its bounding ePSFs', replay)
